@@ -986,6 +986,10 @@ class Interp:
             self._emit_excs(o, excs, t)
             for s1 in fs:
                 exits.setdefault(s1, _tr(t, "while@%d:exit" % st.lineno))
+            if ts and hasattr(self.dom, "while_continue"):
+                # (exact-collection domains: a loop whose condition the analysis cannot decide is followed for a bounded
+                # number of rounds on paths that are already imprecise - nothing further could be learnt)
+                ts = [s2 for s2 in (self.dom.while_continue(st, s1) for s1 in ts) if s2 is not None]
             if ts:
                 b = self.block(st.body, [(s1, _tr(t, "while@%d:iter" % st.lineno)) for s1 in ts], ctx)
                 for s2, v2, t2 in b.of("norm") + b.of("cont"):
